@@ -6,6 +6,7 @@ mod small;
 mod tables;
 mod position;
 mod posprops;
+mod engine;
 
 use common::Out;
 
@@ -29,6 +30,7 @@ fn main() {
         "c09" => tables::c09(&mut out, thorough),
         "c08" => tables::c08(&mut out, thorough),
         "c04keys" => tables::c04keys(&mut out, thorough),
+        "c17" => tables::c17(&mut out, thorough),
         "c01" => posprops::c01(&mut out, thorough),
         "c02" => posprops::c02(&mut out, thorough),
         "c03" => posprops::c03(&mut out, thorough),
@@ -37,6 +39,10 @@ fn main() {
         "c06" => posprops::c06(&mut out, thorough),
         "c07" => posprops::c07(&mut out, thorough),
         "c10" => posprops::c10(&mut out, thorough),
+        "c11" => engine::c11(&mut out, thorough),
+        "c12" => engine::c12(&mut out, thorough),
+        "c13" => engine::c13(&mut out, thorough),
+        "c15" => engine::c15(&mut out, thorough, args.get(5).map(|s| s.as_str()).unwrap_or("")),
         _ => {
             eprintln!("unknown stream {stream}");
             std::process::exit(2);
